@@ -80,6 +80,16 @@ func c14(c *q.Ctx) {
 		c.ArgIs(hv, "CheckVote", 2, vals, 1, "the voter must be a validator of the voted proposal's view")
 		c.StickyFlag(hv, "append", 1, "[*SignInfos[0]]", q.Cond{Canon: "(*[].Address == *SignInfos[0].Address)", Sense: true}, "the vote is a duplicate if ANY stored vote has its address, not only the last one scanned")
 	}
+	// restart: the certificate stored IN block b certifies b's PARENT - its signatures are re-loaded under the parent's
+	// id (loaded under b's own id they would count towards a quorum for a proposal they never signed); the two
+	// chained-BFT plugins agree
+	for _, ctor := range []string{"bcs/consensus/xpoa::NewXpoaConsensus", "bcs/consensus/tdpos::NewTdposConsensus"} {
+		if f := c.Fn(ctor); f != nil {
+			blk := "i:LedgerRely.QueryBlockByHeight(*)#0"
+			c.ArgIs(f, "Smr.LoadVotes", 1, "i:BlockHandle.GetPreHash("+blk+")", 1, "votes re-loaded from a block's certificate belong to the block's parent")
+			c.ArgIs(f, "Smr.LoadVotes", 2, "*GetJustifySigns(*"+blk+")", 1, "the signatures are those of the same block's certificate")
+		}
+	}
 	// consensus plugins
 	td := c.Fn("bcs/consensus/tdpos::(*tdposConsensus).CheckMinerMatch")
 	if td != nil {
